@@ -136,3 +136,30 @@ Definition wf_conv (cs : conv_spec) : bool :=
   forallb (fun k => forallb (fun g => (snd (nth g (nth k (cv_rel_a cs) []) ([], 0)) <? cv_C cs)
                                    && (snd (nth g (nth k (cv_rel_b cs) []) ([], 0)) <? cv_C cs))
                             (seq 0 (2 ^ cv_depth cs))) (seq 0 (cv_K cs)).
+
+Definition wf_pool (ps : pool_spec) : bool :=
+  forallb (fun oi => match pool_window ps (unravel (pl_out_dims ps) oi) with [] => false | _ => true end)
+          (seq 0 (prod (pl_out_dims ps))).
+
+Definition layer_in_ok (l : layer) (n : nat) : bool :=
+  match l with
+  | LConv cs => wf_conv cs && (n =? cv_C cs * prod (cv_dims cs))
+  | LPool ps => wf_pool ps && (n =? pl_C ps * prod (pl_dims ps))
+  | _ => false
+  end.
+
+Fixpoint wf_spatial (ls : list layer) (n : nat) : bool :=
+  match ls with
+  | [] => true
+  | l :: rest => layer_in_ok l n && wf_spatial rest (layer_out_size l)
+  end.
+
+(* the circuit the emitted program must compute *)
+Definition eval_model (m : spatial_model) (x : list bool) : list bool :=
+  eval_dense_net (sm_dense m) (eval_net (sm_spatial m) x).
+
+Definition wf_spatial_model (m : spatial_model) : bool :=
+  negb (length (sm_spatial m) =? 0)
+  && wf_spatial (sm_spatial m) (sm_C m * prod (sm_dims m))
+  && (sm_flat m || (length (sm_dense m) =? 0))
+  && wf_dense_net (last (map layer_out_size (sm_spatial m)) 0) (sm_dense m).
